@@ -311,6 +311,9 @@ class Listener:
                 new_neighbor = copy.copy(ranged_neighbor[0])
                 new_neighbor.range_size = 1
                 new_neighbor.ephemeral = True
+                # copy.copy() is shallow: without a session of its own the new neighbor would rewrite the addresses
+                # of the range it was copied from, and of every other peer created from that range
+                new_neighbor.session = copy.copy(new_neighbor.session)
                 new_neighbor.session.local_address = IP.from_string(connection.peer)
                 new_neighbor.session.peer_address = IP.from_string(connection.local)
                 if not new_neighbor.session.router_id:
